@@ -58,7 +58,12 @@ class Event:
     def notify(self, args):
         for handler in self.subscribers[:]:
             handler, inner_args, kwargs, one_shot, predicate = handler
-            if predicate and not predicate(args):
+            try:
+                if predicate and not predicate(args):
+                    continue
+            except:
+                # A failing predicate is that subscriber's problem, the others still get notified.
+                LOG.exception(f"Failed in predicate for {self.name}")
                 continue
             if one_shot:
                 self.unsubscribe(handler, *inner_args, **kwargs)
